@@ -74,6 +74,9 @@ func c10Run(args [][]string) []string {
 	if op := ai(args[0][0]); op == 2 || op == 3 {
 		return c10RunBoard(args, op == 3) // c10board.go: several articles, several commenters, all comment-related board attributes
 	}
+	if ai(args[0][0]) == 5 {
+		return c10RunTwoBoards(args) // c10two.go: two boards holding the same article file name, comments back to back in one process
+	}
 	// op 4 = op 1 on an index whose addressed entry carries a given Modified stamp: group 7 is [rel v] - the stamp is
 	// v (rel = 0) or the driver's clock reading at planting time + v (rel = 1: "v seconds ahead of the clock")
 	op := ai(args[0][0])
@@ -219,6 +222,9 @@ func init() {
 			if b, err := cache.GetBCache(c10Bid); err == nil {
 				b.BrdAttr = c10OrigAttr
 				b.FastRecommendPause = c10OrigPause
+			}
+			if b, err := cache.GetBCache(c10Bid2); err == nil && c10Orig2Set {
+				b.BrdAttr = c10OrigAttr2
 			}
 			c10Env.close()
 		},
